@@ -425,6 +425,14 @@ def test_fp_encoding(rng, n=60):
             g = got if isinstance(got, int) else z3.simplify(fpworld.to_bv(got.t)).as_signed_long()
             if g != want:
                 raise Mismatch('%s dt=%d t0=%d: %d vs %d' % (mode, dt, t0, g, want))
+        # the same expression on float32 values (numpy 2 promotion: float32 with Python scalars stays float32)
+        r32 = np.asarray(rs, dtype=np.float32)
+        rx32 = 1000.0 * np.array(r32[1] - r32[0])
+        x32 = (s1.to_f32() - s0.to_f32()) * 1000.0
+        if not x32.f32 or np.float64(val(x32)).tobytes() != np.float64(rx32).tobytes() or \
+                z3.simplify(fpworld.to_bv(x32.rint().trunc_int().t) if not isinstance(x32.rint().trunc_int(), int) else z3.BitVecVal(x32.rint().trunc_int(), 64)).as_signed_long() != int(np.rint(rx32)):
+            raise Mismatch('float32 interval expression dt=%d t0=%d: %r vs %r' % (dt, t0, val(x32), float(rx32)))
+        done += 1
         # reader, both formulations: arange(start, start + step*count, step) and start + step*arange(count)
         rate = dt / 1000
         ra = np.arange(t0, t0 + rate * cnt, rate)
@@ -441,6 +449,23 @@ def test_fp_encoding(rng, n=60):
         if np.float64(val(vb)).tobytes() != np.float64(rb).tobytes():
             raise Mismatch('start + step*arange dt=%d t0=%d' % (dt, t0))
         done += 5
+    # and against segyio itself on a real file (the 2-byte interval field: only 1..32767 us reach segyio as written)
+    from replay.segymake import make_segy
+    import segyio
+    d = tempfile.mkdtemp(prefix='verif-fpst-')
+    try:
+        for dt, t0 in ((1001, 0), (32767, -32768), (rng.randint(1, 32767), rng.randint(-32768, 32767))):
+            path = os.path.join(d, 'a.sgy')
+            make_segy(path, 'regular', (2, 2, 9), fmt=5, dt_us=dt, t0_ms=t0)
+            with segyio.open(path) as f:
+                real = np.array(f.samples, dtype=np.float64)
+            step = SymFloat(to_fp(dt)) / 1000.0
+            for k in range(9):
+                if np.float64(val(step * k + t0)).tobytes() != np.float64(real[k]).tobytes():
+                    raise Mismatch('segyio samples[%d] for dt=%d t0=%d: %r vs %r' % (k, dt, t0, val(step * k + t0), real[k]))
+                done += 1
+    finally:
+        shutil.rmtree(d, ignore_errors=True)
     fpworld.reset()
     return done
 
